@@ -849,6 +849,10 @@ def model_input(w):
             if ev:
                 out.append((i, f"advgce {t[1]} {ev.group(1)} {ev.group(3)} {ev.group(2)}"))
         elif t[0] in ("merge", "clear", "restart", "fp"):
+            if t[0] == "restart" and (parse_fp(fp) or {}).get("state") == "p":
+                # restarted between `welcome` and `accept`: the group is still pending, which is Model.Welcome's business
+                # (C16); the client model joins at `accept` and a restart of a client without a group is a no-op in it
+                continue
             out.append((i, f"{t[0]} {t[1]}"))
         elif t[0] == "advupdate":
             continue        # stand-alone Update proposals are outside the model: inert on the current tree (oracle: refused-with-effect on Q)
